@@ -136,6 +136,22 @@ def run_C01(run):
                                           {"descendant", "descendant-or-self", "self", "child", "parent", "ancestor"},
                                           TestKinds={"any"} if q else {"any", "node"}, TestNames={"a"}),
                        name="paths-desc-3step", kind="sel-set")
+    # (3c) implementation-shaped model XQueryVM: TLC checks that the modelled iterator pipeline (builder rewrites + cursor
+    #      walks) delivers exactly the denotation; the engine's real cursor movements, recorded by the harness navigator,
+    #      are compared with the model's (a difference is MODEL DRIFT: reported, never a verdict)
+    vm = consts(BASE_PATHS, MaxNodes=3 if q else 4, MaxSteps=2, CatSteps=1 if q else 2, CatIds=ALL_CAT, Deviations=set(),
+                TestKinds={"any", "node", "text"}, TestNames={"a"})
+    r = run.tlc("MC_VM", vm, invariants=("VMRefines", "Emit"), name="vm-refines-denotation")
+    stats, drift = run.replay(r["outfile"], kind="vm", render="full", stage="vm-conformance")
+    run.drift = getattr(run, "drift", []) + drift
+    # model sensitivity: each defect the pinned tree had (F-C01-1..4) is refuted by TLC when re-introduced in the model
+    for dev in ("shortcut-any-test", "dod-leaf", "foll-attr", "attr-of-attr"):
+        r = run.tlc("MC_VM", consts(vm, MaxNodes=4, CatSteps=0, Deviations={dev}, WithComment=False, TextVals=set(),
+                                    StepAxes={"descendant", "descendant-or-self", "child", "attribute", "following"},
+                                    TestKinds={"any"}, TestNames={"a"}),
+                    invariants=("VMRefines",), name="vm-deviation-" + dev, out=False, allow_violation=True)
+        if "Invariant VMRefines is violated" not in r["log"]:
+            raise ToolingError("XQueryVM does not refute the re-introduced defect %s: vacuous model" % dev)
     # (4) Flow B: seeded documents up to 20 nodes, paths up to 4 steps, recorded
     #     from the engine and validated by TLC against the denotation
     tr = run.drive("paths", 1500 if q else 20000, extra=["-nodes", "20", "-steps", "4"])
